@@ -365,25 +365,31 @@ func runC20(r *Run) {
 
 // retainedBase: the append base derives from storage retained across calls (a field of the message,
 // of the destination value or of the pooled object, or the pointee of the receiver).
-func retainedBase(v ssa.Value, depth int) bool {
-	if depth > 8 || v == nil {
+func retainedBase(v ssa.Value, depth int) bool { return retainedBaseV(v, depth, map[ssa.Value]bool{}) }
+
+func retainedBaseV(v ssa.Value, depth int, seen map[ssa.Value]bool) bool {
+	if depth > 12 || v == nil {
 		return false
 	}
+	if seen[v] {
+		return true // a loop-carried slice: retained iff its other sources are
+	}
+	seen[v] = true
 	switch x := v.(type) {
 	case *ssa.Slice:
-		return retainedBase(x.X, depth+1)
+		return retainedBaseV(x.X, depth+1, seen)
 	case *ssa.ChangeType:
-		return retainedBase(x.X, depth+1)
+		return retainedBaseV(x.X, depth+1, seen)
 	case *ssa.Phi:
 		for _, e := range x.Edges {
-			if !retainedBase(e, depth+1) {
+			if !retainedBaseV(e, depth+1, seen) {
 				return false
 			}
 		}
 		return true
 	case *ssa.Call:
 		if isBuiltinCall(x, "append") {
-			return retainedBase(x.Call.Args[0], depth+1)
+			return retainedBaseV(x.Call.Args[0], depth+1, seen)
 		}
 	case *ssa.UnOp:
 		if x.Op == token.MUL {
@@ -397,6 +403,16 @@ func retainedBase(v ssa.Value, depth int) bool {
 			case *ssa.Parameter:
 				return true // *a of a pointer receiver (UnknownAttributes)
 			}
+		}
+	case *ssa.Parameter:
+		// a slice handed to an unexported helper: retained iff every library caller passes retained storage
+		if args, known := callerArgsOf(x); known {
+			for _, a := range args {
+				if !retainedBaseV(a, depth+1, seen) {
+					return false
+				}
+			}
+			return true
 		}
 	}
 	return false
